@@ -18,7 +18,7 @@ from ..algebra_lin import linear_form
 
 FILESET = "typhon/files/fileset.py"
 HCOMMON = "typhon/files/handlers/common.py"
-EXPECT = {"C02.args": 3, "C02.table": 21, "C02.year2": 1, "C02.doy": 4, "C02.subsec": 2, "C02.endfill": 5, "C02.default_end": 3, "C02.merge": 4, "C02.reject": 4, "C02.memo": 1}
+EXPECT = {"C02.args": 3, "C02.table": 19, "C02.repeat": 4, "C02.year2": 1, "C02.doy": 4, "C02.subsec": 2, "C02.endfill": 5, "C02.default_end": 3, "C02.merge": 4, "C02.reject": 5, "C02.fill": 1, "C02.trip": 1, "C02.helpers": 2, "C02.memo": 1}
 
 DOCUMENTED = ["year", "year2", "month", "day", "doy", "hour", "minute", "second", "millisecond"]
 FIELD = {"year": "year", "month": "month", "day": "day", "hour": "hour", "minute": "minute", "second": "second"}
@@ -247,6 +247,7 @@ def rule_doy_subsec(ctx):
     tflow = Flow(t_)
     ecalls = [c_ for c_ in calls_in(t_.node, "_standardise_datetime_args")]
     end_ok = None
+    end_raw_witness = None
     for c_ in ecalls:
         a0 = tflow.resolve(c_.args[0], at=c_, depth=1) if c_.args else None
         txt0 = str(norm(c_.args[0])) if c_.args else ""
@@ -257,13 +258,26 @@ def rule_doy_subsec(ctx):
         given = list(kws_.values()) + pos_
         end_ok = any(".get('year')" in v_ or "['year']" in v_ for v_ in given) and any("start" in v_ for v_ in given)
         if not end_ok and isinstance(a0, ast.Dict) and any(k_ is None and "start" in str(norm(v_)) for k_, v_ in zip(a0.keys, a0.values)):
-            end_ok = True       # the end arguments are merged over the start arguments before they are standardised
+            # the end fields merged over start fields BEFORE they are standardised: with the raw start fields the start's {doy} / {year2}
+            # overwrites the end's own month and day / year when both are converted (start in one notation, end in another)
+            merged_ = [v_ for k_, v_ in zip(a0.keys, a0.values) if k_ is None and "start" in str(norm(v_))]
+            raw_ = []
+            for v_ in merged_:
+                rv_ = tflow.resolve(v_, at=c_, depth=2)
+                if calls_in(rv_, "_standardise_datetime_args") or (isinstance(rv_, ast.Name) and "datetime" in rv_.id):
+                    raise AnalysisError("_to_datetime_args: the end fields are merged over the standardised start fields before their own standardisation: "
+                                        "outside the scheme the rules read (which end fields were given is needed for the roll-over)")
+                raw_.append(str(norm(v_)))
+            end_ok = False
+            end_raw_witness = {"template": "{year}{doy}_{hour}-{end_year}{end_month}{end_day}_{end_hour}", "name": "2017365_23-20180102_01",
+                               "end": "2017-12-31 01h (the start's day of year replaced the end's month and day)", "expected": "2018-01-02 01h"}
         end_call = c_
     if end_ok is None:
         raise AnalysisError("_to_datetime_args: the standardisation of the end arguments was not found")
     ctx.ob("FileSet._to_datetime_args.end_year", end_ok, "%s" % str(norm(end_call))[:110],
            "the end arguments are standardised with the start's year as default: {end_doy} without {end_year} is a day of the start's year (KeyError: 'year' before)",
-           node=end_call, func=t_, witness=None if end_ok else {"template": "{year}{doy}_{hour}{minute}-{end_doy}_{end_hour}{end_minute}", "raises": "KeyError: 'year'"})
+           node=end_call, func=t_, witness=None if end_ok else (end_raw_witness if end_raw_witness else
+                                                                {"template": "{year}{doy}_{hour}{minute}-{end_doy}_{end_hour}{end_minute}", "raises": "KeyError: 'year'"}))
     ctx.rule("C02.subsec", "T5", "sub-second fields: millisecond writer scale x reader scale = 1; reader weights 10^5, 10^4, 10^3, 1")
     ms = kws.get("millisecond")
     fw = _fmt_width(ms) if ms is not None else None
@@ -760,14 +774,60 @@ def rule_reject(ctx):
     fact = None
     if m:
         r = norm(m[0].targets[0])
-        g = [st for st in flow.stmts if isinstance(st, ast.If) and norm(st.test) in ("not %s" % r, "%s is None" % r)]
-        if g:
-            raises = any(isinstance(s, ast.Raise) and "ValueError" in norm(s.exc) for s in g[0].body)
-            gd = [s for s in g[0].orelse if isinstance(s, ast.Return) and norm(s.value) == "%s.groupdict()" % r]
-            later = [s for s in f.body[f.body.index(g[0]) + 1:] if isinstance(s, ast.Return) and norm(s.value) == "%s.groupdict()" % r]
-            ok = raises and bool(gd or later)
-            fact = "if %s: raise ... else: groupdict()" % norm(g[0].test)
+        from ..flow import guard_chain as _gc
+
+        def truth_of_match(st):
+            """what the guards of st (guard clauses included) say about the match: True (truthy), False (falsy / None), None (nothing)"""
+            says = None
+            for t_, pol_ in _gc(st, implicit=True):
+                tt = str(norm(t_)).replace(" ", "")
+                v_ = {r: True, "not%s" % r: False, "%sisNone" % r: False, "%sisnotNone" % r: True, "not(%s)" % r: False}.get(tt)
+                if v_ is not None:
+                    says = v_ if pol_ else not v_
+            return says
+        g = [st for st in flow.stmts if isinstance(st, ast.If) and str(norm(st.test)).replace(" ", "") in (r, "not%s" % r, "%sisNone" % r, "%sisnotNone" % r)]
+        reads = [s_ for s_ in flow.stmts if isinstance(s_, ast.Return) and s_.value is not None and "%s.groupdict()" % r in str(norm(s_.value))]
+        raisers = [s_ for s_ in flow.stmts if isinstance(s_, ast.Raise) and s_.exc is not None and "ValueError" in str(norm(s_.exc))]
+        if not g or not reads:
+            raise AnalysisError("parse_filename: the test of the match / the read of its groups was not found")
+        ok = all(truth_of_match(s_) is True for s_ in reads) and any(truth_of_match(s_) is False for s_ in raisers)
+        fact = "groups read under %s; ValueError under %s" % ([truth_of_match(s_) for s_ in reads], [truth_of_match(s_) for s_ in raisers])
     ctx.ob("FileSet.parse_filename.reject", ok, fact, "ValueError on every path where the match is falsy; groups are read only from a match", node=m[0] if m else f.node, func=f)
+    # ... and the match that is tested is THE match of the whole name against the whole template: every definition of the result that reaches the
+    # guard is <regex>.match(<the filename given>), and every regex comes from the fileset's filled path or from the template given
+    if m and ok:
+        pf, pt = f.params[1], f.params[2]
+        wrong = None
+        nsites = 0
+        for d in flow.defs(r, g[0]):
+            if d == "param" or not isinstance(d, ast.Assign):
+                raise AnalysisError("parse_filename: a definition of %s that is not an assignment reaches the guard" % r)
+            v = d.value
+            if not (isinstance(v, ast.Call) and isinstance(v.func, ast.Attribute) and v.func.attr in ("match", "fullmatch") and len(v.args) == 1 and not v.keywords):
+                raise AnalysisError("parse_filename: %s = %s is not a match of a regex" % (r, norm(v)[:80]))
+            nsites += 1
+            arg = flow.resolve(v.args[0], at=d)
+            if norm(arg) != pf:
+                wrong = wrong or "%s: the string that is matched is %s, not the whole name" % (norm(d)[:70], norm(arg)[:60])
+                continue
+            if not isinstance(v.func.value, ast.Name):
+                raise AnalysisError("parse_filename: the regex of %s is not held in a name" % norm(v)[:80])
+            for rd in flow.defs(v.func.value.id, d):
+                if rd == "param" or not isinstance(rd, ast.Assign):
+                    raise AnalysisError("parse_filename: definition of the regex not understood")
+                rv = rd.value
+                txt = norm(rv)
+                good = txt == pt or "self._filled_path" in txt
+                for c_ in calls_in(rv, "_fill_placeholders"):
+                    a0 = c_.args[0] if c_.args else next((k_.value for k_ in c_.keywords if k_.arg == "path"), None)
+                    good = a0 is not None and norm(a0) in (pt, "self.path")
+                if not good:
+                    wrong = wrong or "%s: the regex is not the one of the whole path / of the template given" % txt[:80]
+        ctx.ob("FileSet.parse_filename.whole", wrong is None, "%d match(es) reach the guard%s" % (nsites, "" if wrong is None else "; " + wrong),
+               "only a match of the whole name against the whole template is accepted (a name that matches with its last component only contradicts the "
+               "template in its directories)", node=m[0], func=f,
+               witness=None if wrong is None else {"template": "/data/{sat}/{year}/{month}/{sat}_{year}{month}{day}.nc", "name": "/data/noaa18/2019/07/noaa18_20200105.nc",
+                                                  "expected": "ValueError"})
     for fname, where in (("get_filename", "template.format"), ("_fill_placeholders", "path.format")):
         g = ctx.func(FILESET, "FileSet." + fname)
         tr = [st for st in walk_no_nested(g.node) if isinstance(st, ast.Try) and any(calls_in(s, "format") for s in st.body)]
@@ -805,13 +865,35 @@ def rule_reject(ctx):
         fmt_calls = [c_ for c_ in calls_in(g.node, "format") if any(k_.arg is None for k_ in c_.keywords)]
         before = bool(fmt_calls) and stmt_before(g.node, lp, enclosing_stmt(fmt_calls[0]))
         mentions_fill = any(isinstance(n_, ast.Name) and n_.id == g.params[3] for n_ in ast.walk(st.test))
-        okp = need <= chars and before and mentions_fill
-        factp = "for %s in %s: if %s: raise UnfilledPlaceholderError" % (norm(lp.target), norm(lp.iter)[:60], norm(st.test)[:90])
+        # raised only for a placeholder the CALLER did not fill: `p not in <the fill argument>` is one of the conjuncts (or the loop leaves the
+        # caller's names out), and what is looked at is the placeholder's own regex, never the caller's value (a version "v1.2" is a legitimate filling)
+        pfill = g.params[3]
+        gflow = Flow(g)
+        conj = st.test.values if isinstance(st.test, ast.BoolOp) and isinstance(st.test.op, ast.And) else [st.test]
+        unfilled_only = False
+        for c_ in conj:
+            if isinstance(c_, ast.Compare) and len(c_.ops) == 1 and isinstance(c_.ops[0], ast.NotIn) and norm(c_.left) == norm(lp.target) \
+                    and norm(c_.comparators[0]) in (pfill, "%s or {}" % pfill, "(%s or {})" % pfill):
+                unfilled_only = gflow.defs(pfill, st) == ["param"]
+        if not unfilled_only and isinstance(lp.iter, ast.BinOp):
+            sub = [b_ for b_ in ast.walk(lp.iter) if isinstance(b_, ast.BinOp) and isinstance(b_.op, ast.Sub)
+                   and any(isinstance(n_, ast.Name) and n_.id == pfill for n_ in ast.walk(b_.right))]
+            unfilled_only = bool(sub) and gflow.defs(pfill, lp) == ["param"]
+        reads_value = any(isinstance(n_, ast.Subscript) and norm(n_.value) == pfill for c_ in conj for n_ in ast.walk(c_))
+        if not unfilled_only and not reads_value and mentions_fill:
+            raise AnalysisError("get_filename: how the check is restricted to placeholders the caller left unfilled was not understood: %s" % norm(st.test)[:100])
+        okp = need <= chars and before and mentions_fill and unfilled_only
+        if need <= chars and before and mentions_fill and not unfilled_only:
+            factp_extra = "; the caller's own fillings are checked as well"
+        else:
+            factp_extra = ""
+        factp = "for %s in %s: if %s: raise UnfilledPlaceholderError%s" % (norm(lp.target), norm(lp.iter)[:60], norm(st.test)[:90], factp_extra)
     elif len(pre) > 1:
         raise AnalysisError("get_filename: several loops raise UnfilledPlaceholderError")
     ctx.ob("FileSet.get_filename.unfilled.regex", okp, factp, "before the template is filled: a placeholder of the template that the caller did not fill and whose "
            "regex contains a regex character (. + ^ $ and the closing brackets included) raises UnfilledPlaceholderError", node=pre[0][1] if pre else g.node, func=g,
-           witness=None if okp else {"placeholder": {"sat": ".+"}, "get_filename(t, fill={})": "/data/.+/20170102.nc"})
+           witness=None if okp else ({"template": "{version}/{year}{month}{day}.nc", "get_filename(t, fill={'version': 'v1.2'})": "UnfilledPlaceholderError", "expected": "v1.2/20170102.nc"}
+                                     if "caller's own" in factp else {"placeholder": {"sat": ".+"}, "get_filename(t, fill={})": "/data/.+/20170102.nc"}))
 
 
 def rule_anchor(ctx, rule="C01.anchor"):
@@ -919,7 +1001,7 @@ def rule_memo(ctx, rule="C02.memo"):
 
 
 def rule_regexfill(ctx):
-    ctx.rule("C02.table", "T6", "_fill_placeholders: repetitions of a placeholder are replaced behind its first occurrence, located in the string as it is NOW")
+    ctx.rule("C02.repeat", "T6", "_fill_placeholders: repetitions of a placeholder are replaced behind its first occurrence, located in the string as it is NOW")
     # what a repetition is replaced by: the regex of the placeholder without its named group - but still ONE group (a list of values is
     # an alternation a|b: bare, it would split the whole anchored path regex into two alternatives)
     rg = ctx.func(FILESET, "FileSet._remove_group_capturing")
@@ -1033,12 +1115,334 @@ def rule_regexfill(ctx):
            node=kdefs[0] if kdefs else lp, func=f)
 
 
+FILL_TABLE = [
+    # (template, user placeholders {name: regex}, extra placeholders)
+    ("/data/{year}/{month}/{day}/{hour}{minute}{second}.nc", {}, {}),
+    ("/data/{sat}/{year}/{sat}_{year}{month}{day}.nc", {"sat": "(?P<sat>.+?)"}, {}),
+    ("{year}{doy}_{hour}{minute}-{end_hour}{end_minute}.txt.gz", {}, {}),
+    ("/archive/*/{year}-{month}-{day}/{year}{month}{day}_{product}_v1.0.h5", {"product": "(?P<product>[a-z0-9]+)"}, {}),
+    ("/d/{a}_{b}_{a}_{b}_{a}.dat", {"a": "(?P<a>[A-Z]+)", "b": "(?P<b>\\d+)"}, {}),
+    ("/x/{year2}{month}{day}.{millisecond}.bin", {}, {}),
+    ("plain/file.name.txt", {}, {}),
+    ("/data/{mode}/{year}.nc", {"mode": "(?P<mode>[^/]+)"}, {"mode": "(?P<mode>day|night)"}),
+    ("/data/{unknown}/{year}.nc", {}, {}),
+]
+FILL_VALUES = {"year": ["2017", "2018"], "year2": ["17"], "month": ["01", "12"], "day": ["02", "31"], "doy": ["001", "366"], "hour": ["00", "23"], "minute": ["05"], "second": ["59"],
+               "millisecond": ["123"], "end_hour": ["01"], "end_minute": ["30"], "sat": ["noaa18", "metop_a", "a.b"], "product": ["mhs", "l2"], "a": ["AB", "C"], "b": ["1", "22"],
+               "mode": ["day", "night", "dusk"]}
+
+
+def _fill_reference(template, placeholders):
+    """the specification: backslashes, dots and stars of the TEMPLATE are made literal / lazy wildcards first; the first occurrence of a placeholder is
+    replaced by its regex (a named group), every later one by a back-reference to that group (the same value); anchored at both ends"""
+    import re
+    path = template.replace("\\", "\\\\").replace(".", "\\.").replace("*", ".*?")
+    out, pos, seen = "", 0, set()
+    for m_ in re.finditer(r"{(\w+)}", path):
+        out += path[pos:m_.start()]
+        p_ = m_.group(1)
+        if p_ in seen:
+            out += "(?P=%s)" % p_
+        else:
+            if p_ not in placeholders:
+                return ("raises", "UnknownPlaceholderError")
+            out += placeholders[p_]
+            seen.add(p_)
+        pos = m_.end()
+    return "^" + out + path[pos:] + "$"
+
+
+def _fill_names(template):
+    """candidate names for a template: its placeholders filled from FILL_VALUES (first value, then one placeholder at a time varied, repetitions filled
+    alike and unlike), each also with a prefix, a suffix, and with every literal dot replaced"""
+    import re
+    keys = re.findall(r"{(\w+)}", template)
+    base = {k: FILL_VALUES.get(k, ["x"])[0] for k in keys}
+    fills = [dict(base)]
+    for k in dict.fromkeys(keys):
+        for v in FILL_VALUES.get(k, ["x"])[1:]:
+            fills.append(dict(base, **{k: v}))
+    names = []
+    for f_ in fills:
+        nm = template.replace("*", "any/thing")
+        for k in dict.fromkeys(keys):
+            nm = nm.replace("{%s}" % k, f_[k])
+        names.append(nm)
+    # repetitions filled unlike
+    for k in dict.fromkeys(keys):
+        if keys.count(k) > 1 and len(FILL_VALUES.get(k, [])) > 1:
+            nm = template.replace("*", "q").replace("{%s}" % k, FILL_VALUES[k][0], 1).replace("{%s}" % k, FILL_VALUES[k][1])
+            for k2 in dict.fromkeys(keys):
+                nm = nm.replace("{%s}" % k2, base[k2])
+            names.append(nm)
+    out = []
+    for nm in names:
+        out += [nm, "X" + nm, nm + "X", nm.replace(".", "_", 1), nm.replace("*", "")]
+    return list(dict.fromkeys(out))
+
+
+TRIP_TEMPLATES = [
+    "/data/{year}/{month}/{day}/f_{hour}{minute}{second}.nc",
+    "/data/{year}/{doy}/g_{hour}{minute}.dat",
+    "{year2}{month}{day}_{hour}{minute}{second}{millisecond}.bin",
+    "/a/{year}{month}{day}_{hour}{minute}{second}-{end_year}{end_month}{end_day}_{end_hour}{end_minute}{end_second}.h5",
+    "/a/{year}-{doy}T{hour}_{end_year}-{end_doy}T{end_hour}.txt",
+    "/b/{year2}{doy}{hour}{minute}{second}{millisecond}_{end_year2}{end_doy}{end_hour}{end_minute}{end_second}{end_millisecond}.raw",
+    "/c/{year}/{month}/{year}{month}{day}.{hour}.nc",
+    "/d/{year}{month}{day}_{hour}{minute}-{end_hour}{end_minute}.nc",
+]
+TRIP_TIMES = [((2017, 1, 2, 3, 4, 5, 678000), (2017, 1, 2, 23, 59, 58, 1000)), ((1999, 12, 31, 0, 0, 0, 0), (2000, 1, 1, 0, 0, 0, 0)), ((2016, 2, 29, 12, 30, 0, 999000), (2016, 12, 31, 12, 31, 1, 0)),
+              ((1965, 7, 4, 7, 7, 7, 7000), (1965, 7, 4, 8, 0, 0, 0)), ((2064, 10, 10, 10, 10, 10, 10000), (2064, 10, 10, 20, 20, 20, 20000)), ((2020, 12, 31, 23, 59, 59, 999000), (2020, 12, 31, 23, 59, 59, 999000))]
+
+
+def _trip_expected(template, t, prefix=""):
+    """the time a name written from `t` stands for: t cut to the fields the template spells out (None when it spells out none)"""
+    import re
+    from datetime import datetime
+    keys = set(re.findall(r"{(\w+)}", template))
+    has = lambda k: (prefix + k) in keys
+    if not any(has(k) for k in ("year", "year2", "month", "day", "doy", "hour", "minute", "second", "millisecond")):
+        return None
+    y, mo, d, h, mi, s_, us = t
+    return datetime(y, mo if (has("month") or has("doy")) else 1, d if (has("day") or has("doy")) else 1, h if has("hour") else 0, mi if has("minute") else 0,
+                    s_ if has("second") else 0, (us // 1000) * 1000 if has("millisecond") else 0)
+
+
+def rule_trip_table(ctx, rid="C02.trip"):
+    """name -> time -> name on a table: get_filename, parse_filename, _to_datetime_args / _standardise_datetime_args and _retrieve_time_coverage evaluated together"""
+    ctx.rule(rid, "T4 (finite table)", "reader(writer(t)) = t cut to the fields of the template: get_filename, parse_filename (through _fill_placeholders), "
+             "_to_datetime_args, _standardise_datetime_args and _retrieve_time_coverage evaluated on a table of templates and times with the evaluator for "
+             "string helpers (ends that need no roll-over); outside that class: no verdict from this rule")
+    from datetime import datetime
+    from ..strmachine import call, Stub, Machine
+    fs = {q: ctx.func(FILESET, "FileSet." + q) for q in ("get_filename", "parse_filename", "_fill_placeholders", "_to_datetime_args", "_standardise_datetime_args",
+                                                         "_retrieve_time_coverage", "_remove_group_capturing")}
+    cls = fs["get_filename"].cls
+    consts = {}
+    for st in cls.body:
+        if isinstance(st, ast.Assign) and len(st.targets) == 1 and isinstance(st.targets[0], ast.Name):
+            try:
+                consts[st.targets[0].id] = Machine().ev(st.value, dict(consts))     # every class-level constant the evaluator can read
+            except AnalysisError:
+                pass
+    if not {"_time_placeholder", "_special_chars", "year2_threshold"} <= set(consts):
+        raise AnalysisError("FileSet: class-level constants %s not found" % sorted({"_time_placeholder", "_special_chars", "year2_threshold"} - set(consts)))
+    tp = {k: "(?P<%s>%s)" % (k, v) for k, v in consts["_time_placeholder"].items()}
+    # other methods of the class that these call are looked up on demand: every method of the class is available to the evaluation
+    methods = {q.split(".", 1)[1]: fn for q, fn in fs["get_filename"].module.funcs.items() if fn.cls is cls and not any(d.endswith(".setter") for d in fn.decorators)}
+    funcs = {"to_datetime": lambda x: x}
+    wrong = None
+    ncases = 0
+    for template in TRIP_TEMPLATES:
+        attrs = dict(consts)
+        attrs.update(methods)
+        attrs.update({"_time_placeholder": dict(tp), "_user_placeholder": {}, "name": "fs", "path": template, "_special_chars": list(consts["_special_chars"]),
+                      "year2_threshold": consts["year2_threshold"], "_end_time_superior": None, "_temporal_resolution": {}})
+        me = Stub("self", attrs)
+        mods = {"os": Stub("os", {"sep": "/"})}
+        for t0, t1 in TRIP_TIMES:
+            start, end = datetime(*t0), datetime(*t1)
+            ncases += 1
+            name = call(fs["get_filename"], me, (start, end), template, funcs=funcs, _globals=mods)
+            if not isinstance(name, str):
+                wrong = wrong or {"template": template, "times": [str(start), str(end)], "get_filename": repr(name)[:100]}
+                continue
+            fields = call(fs["parse_filename"], me, name, template, funcs=funcs, _globals=mods)
+            if not isinstance(fields, dict):
+                wrong = wrong or {"template": template, "name": name, "parse_filename": repr(fields)[:100]}
+                continue
+            cov = call(fs["_retrieve_time_coverage"], me, fields, funcs=funcs, _globals=mods)
+            want = (_trip_expected(template, t0), _trip_expected(template, t1, "end_"))
+            if want[1] is not None and "{end_year" not in template and "{end_doy" not in template and "{end_day" not in template:
+                want = (want[0], want[1].replace(year=start.year, month=start.month, day=start.day))      # an end of hours and minutes lies on the start's day
+            if not (isinstance(cov, tuple) and len(cov) == 2 and cov[0] == want[0] and cov[1] == want[1]) and wrong is None:
+                wrong = {"template": template, "written from": [str(start), str(end)], "name": name, "read as": [str(x) for x in cov] if isinstance(cov, tuple) else repr(cov)[:100],
+                         "expected": [str(want[0]), str(want[1])]}
+    ctx.ob("FileSet.roundtrip.table", wrong is None, "%d (template, times) cases evaluated%s" % (ncases, "" if wrong is None else "; first difference: %s" % wrong),
+           "the time read from a generated name is the time it was generated from, cut to the fields the template spells out", node=fs["get_filename"].node, func=fs["get_filename"],
+           witness=wrong, complete=True)
+    ctx.models.append({"rule": rid, "cases": ncases, "domain": "%d templates (year/year2, month+day/doy, milliseconds, complete and partial ends) x %d pairs of times (leap day, year ends, 1965 / 2064)" % (
+        len(TRIP_TEMPLATES), len(TRIP_TIMES)), "exhaustive": False})
+    return True
+
+
+def rule_helper_tables(ctx, rid="C02.helpers"):
+    """two small helpers of the chain, evaluated on tables"""
+    ctx.rule(rid, "T4 (finite table)", "_remove_group_capturing strips exactly the named group of the placeholder; FileInfo.update takes over a time of the other "
+             "object unless it is None (or None is not ignored) - both evaluated on tables with the evaluator for string helpers")
+    import itertools
+    from ..strmachine import call, Stub
+    rg = ctx.func(FILESET, "FileSet._remove_group_capturing")
+    wrong = None
+    table = [("sat", "(?P<sat>noaa\\d+)", "noaa\\d+"), ("sat", "noaa18", "noaa18"), ("sat", "(?P<sat>Pnoaa)", "Pnoaa"), ("s", "(?P<s>(a|b)>)", "(a|b)>"), ("sat", "(sat)", "(sat)"),
+             ("a", "(?P<ab>x)", "(?P<ab>x)"), ("p", "(?P<p>)", ""), ("name", "?P<name>", "?P<name>"), ("x", "(?P<x>a(?P<y>b))", "a(?P<y>b)"), ("sat", "<sat>P(", "<sat>P(")]
+    for name, value, want in table:
+        got = call(rg, name, value)
+        if got != want and wrong is None:
+            wrong = {"_remove_group_capturing(%r, %r)" % (name, value): repr(got), "expected": repr(want)}
+    ctx.ob("FileSet._remove_group_capturing.table", wrong is None, "%d (placeholder, regex) pairs evaluated%s" % (len(table), "" if wrong is None else "; first difference: %s" % wrong),
+           "'(?P<name>' + r + ')' -> r for the placeholder's own group; every other string unchanged", node=rg.node, func=rg, witness=wrong, complete=True)
+    u = ctx.func(HCOMMON, "FileInfo.update")
+    wrong = None
+    ncases = 0
+    for o0, o1, ign in itertools.product((None, "T0"), (None, "T1"), (True, False, "default")):
+        me = Stub("self", {"times": ["S0", "S1"], "attr": {"a": 1, "b": 2}, "path": "p"})
+        other = Stub("other", {"times": [o0, o1], "attr": {"b": 3, "c": 4}, "path": "q"})
+        r = call(u, me, other) if ign == "default" else call(u, me, other, ign)
+        ncases += 1
+        ignore = True if ign == "default" else ign
+        want = [o0 if (o0 is not None or not ignore) else "S0", o1 if (o1 is not None or not ignore) else "S1"]
+        got = me.attrs.get("times")
+        if isinstance(r, tuple) and r and r[0] == "raises":
+            got = r
+        if (list(got) if isinstance(got, (list, tuple)) else got) != want or me.attrs.get("attr") != {"a": 1, "b": 3, "c": 4}:
+            wrong = wrong or {"self.times": ["S0", "S1"], "other.times": [o0, o1], "ignore_none_time": ign, "after update": repr(got), "attr": repr(me.attrs.get("attr")), "expected": want}
+        if other.attrs["times"] != [o0, o1] or other.attrs["attr"] != {"b": 3, "c": 4}:
+            wrong = wrong or {"other object modified": repr(other.attrs)}
+    ctx.ob("FileInfo.update.table", wrong is None, "%d combinations of known / unknown times evaluated%s" % (ncases, "" if wrong is None else "; first difference: %s" % wrong),
+           "each time of the other object replaces this object's unless it is None and None is ignored; attributes merged, the other's winning", node=u.node, func=u, witness=wrong, complete=True)
+    ctx.models.append({"rule": rid, "cases": ncases + len(table), "domain": "start / end known or None x ignore_none_time; placeholder regexes with and without their named group", "exhaustive": True})
+    return True
+
+
+def fill_evaluated(ctx, rid, *structural):
+    """run the table evaluation of _fill_placeholders, then the structural rules about it.  Where the evaluation gave a verdict, a structural rule that
+    cannot READ a restructured _fill_placeholders (AnalysisError, or an unmet obligation in a function beyond the novelty limit) is not an error: the
+    function has been decided by evaluating it.  Structural verdicts on a function they can read stand as before."""
+    if _attempt_table(ctx, rule_fill_table, rid, [(FILESET, "FileSet._fill_placeholders")]):
+        _decided(ctx, rid, ("_fill_placeholders",), ("FileSet._fill_placeholders.",))
+    for fn, args, _rids in structural:
+        ctx.attempt(fn, *args)
+    apply_decided(ctx)
+
+
+def trip_evaluated(ctx, rid, *structural):
+    """the same for the round trip name -> time -> name: structural rules that cannot read a restructured get_filename / year2 / day-of-year conversion"""
+    chain = ["FileSet.get_filename", "FileSet.parse_filename", "FileSet._fill_placeholders", "FileSet._to_datetime_args", "FileSet._standardise_datetime_args",
+             "FileSet._retrieve_time_coverage", "FileSet._remove_group_capturing"]
+    if _attempt_table(ctx, rule_trip_table, rid, [(FILESET, q) for q in chain]):
+        _decided(ctx, rid, ("get_filename", "two-digit year", "year2", "day of year"),
+                 ("FileSet.get_filename[", "FileSet.get_filename.times", "FileSet.get_filename.doy_offset", "FileSet.get_filename.millisecond",
+                  "FileSet._standardise_datetime_args.year2", "FileSet._standardise_datetime_args.doy"))
+    for fn, args, _rids in structural:
+        ctx.attempt(fn, *args)
+    apply_decided(ctx)
+
+
+def helpers_evaluated(ctx, rid="C02.helpers"):
+    if _attempt_table(ctx, rule_helper_tables, rid, [(FILESET, "FileSet._remove_group_capturing"), (HCOMMON, "FileInfo.update")]):
+        _decided(ctx, rid, ("FileInfo.update", "_remove_group_capturing"), ("FileInfo.update", "FileSet._remove_group_capturing."))
+
+
+def _decided(ctx, rid, words, constructs):
+    if not hasattr(ctx, "decided"):
+        ctx.decided = []
+    ctx.decided.append((rid, tuple(words)))
+    if not hasattr(ctx, "superseded"):
+        ctx.superseded = {}
+    for c_ in constructs:
+        ctx.superseded[c_] = rid
+
+
+def apply_decided(ctx):
+    """errors of structural rules about a function that a table evaluation has decided are dropped (and noted); the vacuity guard of a structural
+    rule that stopped early is waived"""
+    keep = []
+    for e in ctx.errors:
+        head = e.split(":", 1)[0]
+        hit = [rid for rid, words in getattr(ctx, "decided", []) if head != rid and any(w in e for w in words)]
+        if hit and not e.startswith("rule ") and "vacuity guard" not in e:
+            ctx.extra.setdefault("superseded", []).append({"error": e[:200], "decided_by": hit[0]})
+            if not hasattr(ctx, "expect_waived"):
+                ctx.expect_waived = set()
+            ctx.expect_waived.add(head)
+        else:
+            keep.append(e)
+    ctx.errors[:] = keep
+
+
+def _attempt_table(ctx, fn, rid, quals):
+    """run a table evaluation.  When the evaluator refuses a construct, that is an error only on code the evaluation was confirmed on (the functions
+    are the snapshot's): on restructured code the refusal is noted and the structural rules alone decide, as they did before the evaluator existed."""
+    from .. import novelty as _nov
+    try:
+        return bool(fn(ctx, rid))
+    except AnalysisError as e:
+        moved = 0
+        for rel, q in quals:
+            n_ = _nov.novelty(ctx.repo.mod(rel).tree, rel, q)
+            moved += n_ or 0
+        if moved == 0:
+            ctx.errors.append("%s: %s" % (rid, e))
+        else:
+            ctx.extra.setdefault("not_evaluated", []).append({"rule": rid, "why": str(e)[:200], "changed_statements": moved})
+            if not hasattr(ctx, "expect_waived"):
+                ctx.expect_waived = set()
+            ctx.expect_waived.add(rid)
+        return False
+
+
+def rule_fill_table(ctx, rid="C02.fill"):
+    """_fill_placeholders, evaluated on a table of templates: the regex it builds accepts the same names with the same fields as the specification"""
+    ctx.rule(rid, "T4 (finite table)", "_fill_placeholders(template) accepts the same names with the same fields as the specification regex (template characters "
+             "literal, first occurrence = named group, repetitions = back-references, anchored) on a table of templates and candidate names, read with the "
+             "evaluator for string helpers; outside that class: no verdict from this rule")
+    import re
+    from ..strmachine import call, Stub, Machine
+    f = ctx.func(FILESET, "FileSet._fill_placeholders")
+    # the class-level table of temporal placeholders, completed to named groups as __init__ does
+    cls = f.cls
+    tp = None
+    for st in cls.body:
+        if isinstance(st, ast.Assign) and len(st.targets) == 1 and norm(st.targets[0]) == "_time_placeholder":
+            tp = Machine().ev(st.value, {})
+    if not isinstance(tp, dict) or not tp:
+        raise AnalysisError("FileSet._time_placeholder: class-level table not found")
+    tp = {k: "(?P<%s>%s)" % (k, v) for k, v in tp.items()}
+    wrong = None
+    ncases = 0
+    for template, user, extra in FILL_TABLE:
+        me = Stub("self", {"_time_placeholder": dict(tp), "_user_placeholder": dict(user), "name": "fs", "path": template})
+        env_mods = {"os": Stub("os", {"sep": "/"})}
+        got = call(f, me, template, dict(extra) if extra else None, False, _globals=env_mods)
+        want = _fill_reference(template, {**tp, **user, **extra})
+        if isinstance(want, tuple) or isinstance(got, tuple):
+            ncases += 1
+            if got != want and wrong is None:
+                wrong = {"template": template, "_fill_placeholders": repr(got)[:120], "expected": repr(want)[:120]}
+            continue
+        if not isinstance(got, str):
+            raise AnalysisError("_fill_placeholders(compile=False) returned %s" % type(got).__name__)
+        try:
+            rg, rw = re.compile(got), re.compile(want)
+        except re.error as e_:
+            wrong = wrong or {"template": template, "_fill_placeholders": got[:120], "not a regular expression": str(e_)}
+            continue
+        for nm in _fill_names(template):
+            ncases += 1
+            a_, b_ = rg.match(nm), rw.match(nm)
+            ga = None if a_ is None else a_.groupdict()
+            gb = None if b_ is None else b_.groupdict()
+            if ga != gb and wrong is None:
+                wrong = {"template": template, "name": nm, "regex": got[:160], "parsed as": ga, "expected": gb}
+        comp = call(f, me, template, dict(extra) if extra else None, True, _globals=env_mods)
+        if not (isinstance(comp, re.Pattern) and comp.pattern == got) and wrong is None:
+            wrong = {"template": template, "compile=True": repr(comp)[:100], "expected": "re.compile of the same string"}
+    ctx.ob("FileSet._fill_placeholders.table", wrong is None, "%d templates, %d (template, name) cases evaluated%s" % (len(FILL_TABLE), ncases, "" if wrong is None else "; first difference: %s" % wrong),
+           "the regex built from a template accepts exactly the names the specification accepts, with the same fields", node=f.node, func=f, witness=wrong, complete=True)
+    ctx.models.append({"rule": rid, "cases": ncases, "domain": "table of %d templates (repeated placeholders, wildcards, literal dots, user and extra placeholders, an unknown one) x candidate names" % len(FILL_TABLE),
+                       "exhaustive": False})
+    return True
+
+
 def run(ctx):
     from ..calendar_rule import rule_leap
     ctx.attempt(rule_leap, ctx, "C02.calendar", ['typhon/files/fileset.py', 'typhon/files/handlers/common.py', 'typhon/utils/timeutils.py'])
-    for r in (rule_table, rule_year2, rule_doy_subsec, rule_endfill, rule_default_end, rule_merge, rule_reject, rule_memo, rule_regexfill):
+    helpers_evaluated(ctx)
+    trip_evaluated(ctx, "C02.trip", (rule_table, (ctx,), ("C02.table",)), (rule_year2, (ctx,), ("C02.year2",)), (rule_doy_subsec, (ctx,), ("C02.doy", "C02.subsec")))
+    for r in (rule_endfill, rule_default_end, rule_merge, rule_reject, rule_memo):
         ctx.attempt(r, ctx)
-    ctx.attempt(rule_anchor, ctx, "C01.anchor")
+    fill_evaluated(ctx, "C02.fill", (rule_regexfill, (ctx,), ("C02.repeat",)), (rule_anchor, (ctx, "C01.anchor"), ("C01.anchor",)))
     # the caller's arguments (arrays, filter / fill dictionaries) are not modified: an in-place update makes the next call on the same objects wrong
     from ..purity import rule_pure as _rule_args
     ctx.attempt(_rule_args, ctx, "C02.args", [('typhon/files/fileset.py', 'FileSet.get_filename'), ('typhon/files/fileset.py', 'FileSet.parse_filename'), ('typhon/files/fileset.py', 'FileSet._fill_placeholders')], "the caller's arguments are not modified in place")
